@@ -153,6 +153,9 @@ func randomFlags(rng *rand.Rand, j *kj.Journal, o flagOpts) *kj.Flags {
 	}
 	if o.Valued {
 		f.V = []string{"CHF", "USD"}[rng.Intn(2)]
+		if rng.Intn(4) == 0 {
+			f.ShowRx = []string{".", "^Assets", "Portfolio|Card"}[rng.Intn(3)]
+		}
 	}
 	if o.Filters && rng.Intn(2) == 0 {
 		f.AcctRx = []string{"^Assets", "Bank|Rent", "^(Income|Expenses)", "Food", "Checking$"}[rng.Intn(5)]
